@@ -131,6 +131,13 @@ func run(prop, tier, repo, verif string, seed int, onlyKey string) int {
 					c.Floor(r.Floor)
 				}
 			}
+			if dump := os.Getenv("MOSVERIF_DUMP"); dump != "" {
+				for _, o := range c.Obs {
+					if dump == "1" || strings.HasPrefix(o.Key, dump) || o.Rule == dump {
+						fmt.Printf("  dump[%s] %v %s :: %s\n", goos, o.Verdict, o.Key, o.Have)
+					}
+				}
+			}
 			for _, o := range c.Obs {
 				if goos != "linux" && (o.Verdict == core.Holds || o.Verdict == core.Note) {
 					// keep the evidence readable: non-linux variants contribute only counts and failures
